@@ -1416,6 +1416,16 @@ controllerAdjustmentTickRate: 10ms
     curve: cv
     controlAlgorithm: direct
 """.format(sd=sd, sensors=sensor_yaml, curves=curves_yaml, stat="statistics:\n  enabled: true\n  port: %d\n" % p_stat if scraped else "")
+    comp_early = ["sensor", "rpm", "pwm-read", "pwm-write", "mode-write"][idx % 5] if idx < 15 else None
+    # a third fan in some of the PWM-read scenarios: a cmd fan under the PID control algorithm whose read-back tool hangs
+    # beyond its time limit for a while (one control cycle of that fan then takes seconds instead of milliseconds)
+    tool_fault = comp_early == "pwm-read" or (idx >= 15 and idx % 4 == 3)
+    if tool_fault:
+        l2.write(os.path.join(sd, "fcpwm"), "60\n")
+        l2.write(os.path.join(sd, "fcset.sh"), "#!/bin/sh\necho \"$1\" > %s/fcpwm.tmp && mv %s/fcpwm.tmp %s/fcpwm\n" % (sd, sd, sd), 0o755)
+        l2.write(os.path.join(sd, "fcget.sh"), "#!/bin/sh\necho x >> %s/fcget.calls\nif [ \"$(cat %s/fcget.mode 2>/dev/null)\" = hang ]; then sleep 5; fi\ncat %s/fcpwm\n" % (sd, sd, sd), 0o755)
+        cfg += ("  - id: fc\n    cmd:\n      setPwm:\n        exec: %s/fcset.sh\n        args: [\"%%pwm%%\"]\n      getPwm:\n        exec: %s/fcget.sh\n"
+                "    curve: cv\n    controlAlgorithm: pid\n    pwmMap:\n" % (sd, sd)) + "".join("      %d: %d\n" % (v, v) for v in list(range(0, 255, 4)) + [255])
     pwm1, en1, rpm1 = os.path.join(chip, "pwm1"), os.path.join(chip, "pwm1_enable"), os.path.join(chip, "fan1_input")
     sens = os.path.join(chip, "temp1_input") if sensor_kind == "hwmon" else os.path.join(sd, "filesensor")
     comp = rng.choice(["sensor", "rpm", "pwm-read", "pwm-write", "mode-write"])
@@ -1427,6 +1437,9 @@ controllerAdjustmentTickRate: 10ms
     if comp == "sensor" and sensor_kind == "cmd":
         # the command itself misbehaves (no device rule): hangs beyond its time limit, fails, prints garbage / NaN
         cmd_fault = kind = "hang" if idx < 15 else rng.choice(["hang", "hang", "exit", "garbage", "nan"])
+    if tool_fault:
+        comp, kind, cmd_fault = "pwm-read", "get-tool-hangs", None
+        path, op = os.path.join(sd, "fcpwm"), "r"
     # a hwmon / file sensor whose file really holds something that is not a reading for a while - text that a lenient
     # number parser would take for a float ("nan", "inf") or plain garbage; placed by time like the command faults
     text_fault = None
@@ -1440,6 +1453,8 @@ controllerAdjustmentTickRate: 10ms
         length = [1, 10, 0][(idx // 5) % 3]
     if text_fault and idx == 10:
         length = 10
+    if tool_fault and idx < 15:
+        length = [10, 1, 10][(idx // 5) % 3]
     rule = {"path": path, "op": op, "from": start}
     if length:
         rule["to"] = start + length - 1
@@ -1448,7 +1463,7 @@ controllerAdjustmentTickRate: 10ms
     else:
         rule.update(action="content", raw="" if kind == "empty" else "1x2\n")
     rules = [rule, {"path": pwm1, "op": "w", "action": "quant", "val": 5}]
-    if cmd_fault or text_fault:
+    if cmd_fault or text_fault or tool_fault:
         rules = rules[1:]
     case = {"scraped": scraped, "sensor": sensor_kind, "curve": curve_kind, "fault": {"component": comp, "kind": kind, "from_operation": start, "length": length or "for good"}, "orig_mode": orig_mode}
     cls = "sensor=%s:curve=%s:%s/%s/%s" % (sensor_kind, curve_kind, comp, kind, "permanent" if not length else "window")
@@ -1479,6 +1494,13 @@ controllerAdjustmentTickRate: 10ms
             l2.write_atomic(sens, "%d\n" % (40000 + (k * 1700) % 30000))
             if text_fault:
                 continue
+            if tool_fault:
+                if k == 10:
+                    l2.write_atomic(os.path.join(sd, "fcget.mode"), "hang\n")
+                    cmd_hit = True
+                if length and k == 10 + (6 if length == 1 else 60):
+                    l2.write_atomic(os.path.join(sd, "fcget.mode"), "ok\n")
+                continue
             if cmd_fault:
                 # placed by time: begins 0.5 s into regulation, lasts 0.3 s / 3 s (longer than the command time limit) / for good
                 if k == 10:
@@ -1493,7 +1515,43 @@ controllerAdjustmentTickRate: 10ms
                 break
         alive = d.p.poll() is None
         follows, ff_seen = None, -1
-        if alive and length:
+        if alive and length and tool_fault:
+            # the cmd fan under the PID algorithm: the temperature goes to the far end of the curve (target 0 resp. 255) and
+            # the fan has to move at least 40 towards it within 600 calls of its read-back tool (about 200 control cycles)
+            l2.write_atomic(os.path.join(sd, "fcget.mode"), "ok\n")
+            time.sleep(2.5)  # (a call that is hanging right now ends at the tool's time limit)
+            fc0 = l2.read_int(os.path.join(sd, "fcpwm"), -1)
+            up = fc0 <= 128
+            l2.write_atomic(sens, "95000\n" if up else "20000\n")
+
+            def calls():
+                try:
+                    return os.path.getsize(os.path.join(sd, "fcget.calls")) // 2
+                except OSError:
+                    return 0
+            n0 = calls()
+            t_lim = time.time() + 90
+            cycles = 0
+            while time.time() < t_lim and d.p.poll() is None:
+                time.sleep(0.1)
+                ff_seen = l2.read_int(os.path.join(sd, "fcpwm"), -1)
+                if (up and ff_seen >= fc0 + 40) or (not up and 0 <= ff_seen <= fc0 - 40):
+                    follows = True
+                    break
+                cycles = calls() - n0
+                if cycles >= 600:
+                    follows = False
+                    break
+            if d.p.poll() is not None:
+                follows = None
+            elif follows is None:
+                merged.inconclusive.append("C09 L2 scenario %d: fewer than 600 calls of the cmd fan's read-back tool in 90 s after the fault window (%d)" % (idx, cycles))
+            elif follows:
+                merged.counters["l2_cmd_fan_follows_the_temperature_after_its_tool_hung"] = merged.counters.get("l2_cmd_fan_follows_the_temperature_after_its_tool_hung", 0) + 1
+            else:
+                ff_seen = "%s (cmd fan under the PID algorithm, at %s when the temperature went to %s degrees)" % (ff_seen, fc0, 95 if up else 20)
+            alive = d.p.poll() is None
+        elif alive and length:
             # "keeps regulating with the last good data": once the fault window is over the fans follow the temperature
             # again. The sensor goes to 95 degrees (every curve kind then asks for full speed); the file fan (limits 0..255,
             # same sensor and curve) has to arrive at 255 within 400 of its own control cycles (counted from its reads of the
@@ -1540,7 +1598,7 @@ controllerAdjustmentTickRate: 10ms
             return
         if follows is False:
             merged.add_violation("regulation-does-not-follow-the-temperature-after-the-fault-window:" + cls,
-                                 "sensor at 95 degrees for more than 400 control cycles of the file fan after the fault window, the daemon kept running, the file fan stayed at PWM %s; %s" % (ff_seen, json.dumps(case)), replay)
+                                 "sensor at the far end of the curve for more than 400 control cycles of the fan after the fault window, the daemon kept running, the fan stayed at PWM %s; %s" % (ff_seen, json.dumps(case)), replay)
             return
         pm = l2.has_panic(out)
         if pm:
